@@ -10,7 +10,8 @@ META = {
                  'property text are tied to the unmodified fibre.c + messageq.c + list.c by a deterministic single-threaded harness that runs scripted interrupt calls in place at every atomic point '
                  '(include-path stdatomic.h shim, ASan)',
     'level_text': 'Proved (kernel-only, induction over steps - no bound on histories, on the number or placement of interrupts). '
-                  '(I) For EVERY state reachable by ANY interleaving of the main context\'s steps (fibre_scheduler_next / fibre_run / fibre_kill / the canonical handler\'s receive+release, split at each atomic '
+                  '(I) For EVERY state reachable by ANY interleaving of the main context\'s steps (fibre_scheduler_next / fibre_run / fibre_kill / the canonical handler\'s receive+release / the fibre_run(g) and '
+                  'fibre_kill(g) calls that a SCRIPTED FIBRE BODY makes while it is being dispatched, i.e. main-context calls nested inside the dispatch phase of a pass, each with its own handle_atomic_runq drain loop - all split at each atomic '
                   'operation with the plain code between them) with the steps of an interrupt handler, a handler nested inside it and a sender on another thread (fibre_run_atomic; claim+stamp+fibre_eventq_send): '
                   'accepted_never_lost - every fibre with an accepted, not since dispatched or killed request is the payload of a committed unreceived entry of the atomic queue, or on the run queue, or held by '
                   'the drain loop between receive and make_runnable; queues_not_corrupted - run queue and timer queue duplicate free and disjoint at every gap (C04\'s mq_inv for both message queues, every '
@@ -24,13 +25,16 @@ META = {
                   'get_next_wakeup compute kernel.now, the value returned), no_lost_event_wakeup_isr, sent_event_keeps_handler_owed (the NON-sticky form: while an event whose send returned true is unprocessed the '
                   'handler is owed a dispatch or running - also after refused wake-ups and kills), and the refinement model |= monitor: model_refines_monitor (the verdict of Spec/IsrSpec.lean on the model\'s own '
                   'observations is ok: no event out of order / from nowhere, no oversleeping pass, no starved request) and model_settles (after a quiescent run ending idle: owed = [] and mustget = []), for every '
-                  'history without thread-sender items whose calls name existing fibres (decidable scope ItemOk) that is not cut for lack of fuel. (_quiet variants state the same under the explicit hypothesis '
+                  'history without thread-sender items whose calls - including the calls of the scripted bodies attached to its main-context items - name existing fibres (decidable scope ItemOk) that is not cut for lack of fuel; '
+                  'the interrupt script of an item fires at the gaps of the nested calls exactly as at the gaps of the enclosing pass before and after them (the atomic operations of an item are numbered through), so '
+                  'the refinement theorems cover e.g. "wake-up for the running fibre from an interrupt, then the running fibre calls fibre_run on another fibre, then returns WAITING" (non-vacuity example bodyDemo). (_quiet variants state the same under the explicit hypothesis '
                   '"no sender inside a call at that instant" for arbitrary interleavings.) '
                   'Observation O3 (real behaviour, outside the property\'s interrupt semantics): a free-running sender stalled between its claim and its send hides later completed requests from the scheduler\'s '
                   'final check, so fibre_scheduler_next may return a late wake-up although a request completed; the monitor\'s `disturbed` flag suspends its oversleep/starvation rules while a thread sender is in flight. '
                   'The executable runner (interrupt scripts at numbered gaps, nesting, thread senders, quiescent run) is proved to pass only through reachable states, and without thread senders only through '
                   'states in which no sender is inside a call.',
-    'level_note': 'dispatch_within_runq_passes is PROVED: a fibre at position i of the run queue is dispatched by one of the next i+1 uninterrupted passes (from every reachable state, hypothesis: runner not cut for fuel), '
+    'level_note': 'dispatch_within_runq_passes is PROVED: a fibre at position i of the run queue is dispatched by one of the next i+1 uninterrupted passes (from every reachable state; hypotheses: the fibres dispatched meanwhile make no '
+                  'fibre_run/fibre_kill calls of their own (bscript = [] - a body\'s fibre_kill(f) would of course remove f), runner not cut for fuel), '
                   'pass_dispatches_the_head, joins_at_the_tail; the monitor\'s `starved` verdict (a request outstanding at the beginning of nf complete undisturbed passes) additionally checks the bound on the real code. '
                   'NOT proved, only checked on every run by the correspondence (sampling + small exhaustive scopes, never called proof): implementation = model on the compared outputs; '
                   'model_refines_monitor / model_settles PROVE that the abstract monitor never complains about the MODEL (verdict ok: no event out of order, no oversleeping pass, no starved request; after a quiescent run '
@@ -40,7 +44,7 @@ META = {
                   'Events are FIFO in CLAIM order (C04); that is the order of the sends whenever claim..send sections do not overlap. '
                   'Trusted: Lean kernel (standard axioms, no bv_decide); the hand model, validated on every run against the real code: identical output (dispatch order, fibre_self, returned wake-up, every boolean, '
                   'processed stamps, number of atomic operations of every call - so model and code agree on the numbering of gaps) on all histories generated, and the Lean monitor on the real code\'s output. '
-                  'Generated: exhaustively every placement of 1 interrupt call (+1 nested call at every gap of it; pairs on 3 of 7 base scenarios in the quick tier, pairs everywhere and triples on 2 in the thorough tier) '
+                  'Generated: exhaustively every placement of 1 interrupt call (+1 nested call at every gap of it; pairs on 4 of 8 base scenarios in the quick tier, pairs everywhere and triples on 2 in the thorough tier) '
                   'at every gap <k>a/<k>b of every main-context call of 8 base scenarios (a scripted fibre calling fibre_run during its dispatch after a yield, handler+events, atomic queue holding 7 and 8 entries, lone yielder, sleeper, killed handler, event queue of depth 1), plus seeded random '
                   'histories (up to 3 calls per main-context call, depth-2 nesting, queue filled to 6-9 entries, thread items). Free-running threads appear only in the restricted form "the main context executes whole calls '
                   'at a gap of a sender" (enough to expose fibre_eventq_send posting the wake-up before the event, and fibre_run_atomic sending before storing - neither is observable when handlers run to completion); '
